@@ -259,3 +259,128 @@ def inv_checks(rep, tier):
     for nm, n in (("P", sp.P), ("N", sp.N)):
         check_inv_loop_step(rep, sp.inv, "secp256k1.inv mod %s" % nm, n, {"kind": "c08_inv", "args": {"which": "secp256k1.inv"}})
     rep.assume("inv(a, n) is only claimed for a == 0 or a not a multiple of n (callers pass reduced values; inv(n, n) returns 1)")
+
+
+# ---------------------------------------------------------------------------
+# thorough: the same code with its curve constants replaced by small prime-order curves; every pair of points, every scalar
+
+SMALL_PRIME_ORDER = [(7, 3, 13), (13, 2, 19)]      # (p, b, N): y^2 = x^3 + b over GF(p) has prime order N (re-counted in the obligation)
+
+
+def _small_secp(rep, p, b, N, part):
+    sp = mod(SP)
+    ref = mod("py_ecc.bn128.bn128_curve")
+    fe = mod("py_ecc.fields.field_elements")
+    W = 24
+    pts = [(x, y) for x in range(p) for y in range(p) if (y * y - x * x * x - b) % p == 0]
+    rp = {"kind": "c18_small", "args": {"p": p, "b": b, "N": N}}
+    require(rep, len(pts) + 1 == N and all(N % d for d in range(2, N)), "ground: y^2 = x^3 + %d over GF(%d) has prime order %d" % (b, p, N), None, rp)
+    G = pts[0]
+    T = type("SmallFQ", (fe.FQ,), {"field_modulus": p})
+    tag = "secp256k1 code on y^2 = x^3 + %d over GF(%d), N = %d" % (b, p, N)
+    bv = lambda v: z3.BitVecVal(v, W)
+
+    def inv_bv(a, n):
+        ctx = core.cur()
+        a = SymZ.lift(a)
+        v = SymZ.var(ctx.fresh_name("inv"), 0, n - 1)
+        am = a % n
+        ctx.add_fact(z3.If(am.t == 0, v.t == 0, z3.URem(am.t * v.t, bv(n)) == 1))
+        return v
+
+    def pt(ctx, nm, allow_identity=True):
+        x, y = SymZ.var("x" + nm, 0, p - 1), SymZ.var("y" + nm, 0, p - 1)
+        on = z3.URem(y.t * y.t, bv(p)) == z3.URem(x.t * x.t * x.t + b, bv(p))
+        ctx.assume(z3.Or(on, z3.And(x.t == 0, y.t == 0)) if allow_identity else on)
+        return (x, y)
+
+    def oracle_add(ctx, A, B):
+        """the reference bn128_curve.add over GF(p) (decided for every triple by C07 small_curve_all_triples), identity (0, 0) <-> None."""
+        def to_ref(Pt):
+            if ctx.branch(z3.And(SymZ.lift(Pt[0]).t == 0, SymZ.lift(Pt[1]).t == 0)):
+                return None
+            return (T(Pt[0]), T(Pt[1]))
+        with world.patched(fe, prime_field_inv=inv_bv):
+            S = ref.add(to_ref(A), to_ref(B))
+        return (SymZ.const(0), SymZ.const(0)) if S is None else (SymZ.lift(S[0].n), SymZ.lift(S[1].n))
+
+    def same(A, B):
+        return z3.And(SymZ.lift(A[0]).t == SymZ.lift(B[0]).t, SymZ.lift(A[1]).t == SymZ.lift(B[1]).t)
+
+    consts = dict(P=p, N=N, A=0, B=b, Gx=G[0], Gy=G[1], G=G, inv=inv_bv)
+
+    def finish(pth, what, vals_of=("x1", "y1", "x2", "y2", "n", "z1", "z2")):
+        rep.paths += 1
+        if pth.kind != "ret":
+            g, mm = pth.ctx.satisfiable()
+            if g == "sat":
+                rep.fail("%s: %s raised %r" % (tag, what, pth.value), rp)
+            elif g != "unsat":
+                rep.unknown("%s: feasibility of a raising path undecided" % tag)
+            return
+        for w, gl in pth.value:
+            g, mm = pth.ctx.prove(gl, timeout_ms=120000)
+            rpm = rp
+            if g == "sat":
+                vals = {d_.name(): mm[d_].as_signed_long() for d_ in mm.decls() if d_.name() in vals_of}
+                rpm = {"kind": "c18_small", "args": dict(rp["args"], model=vals)}
+            require(rep, g, "%s: %s" % (tag, w), pth.decisions, rpm)
+        g, mm = pth.ctx.prove_side()
+        if g != "unsat":
+            rep.unknown("%s: bit-vector arithmetic may wrap (%s)" % (tag, what))
+    kw = dict(backend=("bv", W), branch_timeout_ms=60000, max_decisions=300)
+
+    # (a) add on every pair (identity included) = the reference affine law
+    def run_add(ctx):
+        A, B = pt(ctx, "1"), pt(ctx, "2")
+        with world.patched(sp, **consts):
+            S = sp.add(A, B)
+        return [("add(A, B) = affine chord-and-tangent sum for ALL pairs incl. doubling, inverse, identity (0, 0)", same(S, oracle_add(ctx, A, B)))]
+    if part == "add":
+        core.explore(run_add, ctx_kwargs=kw, on_path=lambda pth: finish(pth, "add"), max_paths=3000)
+
+    # (b) jacobian_add on arbitrary representatives (x z^2, y z^3, z)
+    def run_jadd(ctx):
+        A, B = pt(ctx, "1", False), pt(ctx, "2", False)
+        z1, z2 = SymZ.var("z1", 1, p - 1), SymZ.var("z2", 1, p - 1)
+        Aj = ((A[0] * z1 * z1) % p, (A[1] * z1 * z1 * z1) % p, z1)
+        Bj = ((B[0] * z2 * z2) % p, (B[1] * z2 * z2 * z2) % p, z2)
+        with world.patched(sp, **consts):
+            S = sp.from_jacobian(sp.jacobian_add(Aj, Bj))
+            D = sp.from_jacobian(sp.jacobian_double(Aj))
+        return [("from_jacobian(jacobian_add(A~, B~)) = A + B for ALL representatives", same(S, oracle_add(ctx, A, B))),
+                ("from_jacobian(jacobian_double(A~)) = A + A for ALL representatives", same(D, oracle_add(ctx, A, A)))]
+    if part == "jacobian":
+        core.explore(run_jadd, ctx_kwargs=kw, on_path=lambda pth: finish(pth, "jacobian_add"), max_paths=3000)
+
+    # (c) multiply for every scalar in [-N - 2, 2N + 2] and every point: n*P by the recurrence (n+1)P = nP + P
+    def run_mul(ctx):
+        A = pt(ctx, "1")
+        n = SymZ.var("n", -N - 2, 2 * N + 2)
+        with world.patched(sp, **consts):
+            M0 = sp.multiply(A, n)
+            M1 = sp.multiply(A, n + 1)
+            Z = sp.multiply(A, 0)
+            One = sp.multiply(A, 1)
+            MN = sp.multiply(A, n + N)
+        return [("multiply(P, n + 1) = multiply(P, n) + P for EVERY n in [-N-2, 2N+2] and every point", same(M1, oracle_add(ctx, M0, A))),
+                ("multiply(P, 0) = (0, 0)", same(Z, (SymZ.const(0), SymZ.const(0)))), ("multiply(P, 1) = P", same(One, A)),
+                ("multiply(P, n + N) = multiply(P, n)", same(MN, M0))]
+    if part == "multiply":
+        core.explore(run_mul, ctx_kwargs=kw, on_path=lambda pth: finish(pth, "multiply"), max_paths=6000)
+    rep.stub("inv(a, p) -> fresh v with a*v == 1 (mod p), inv(0) = 0 (contract: inv_small_and_loop_step)")
+    rep.stub("oracle: reference bn128_curve.add over the same small field (C07 small_curve_all_triples decides its group axioms)")
+
+
+for _p, _b, _N in SMALL_PRIME_ORDER:
+    for _part in (("add", "jacobian", "multiply") if _p == 7 else ("add",)):
+        def _mk_sm(p=_p, b=_b, N=_N, part=_part):
+            def f(rep, tier):
+                sp = mod(SP)
+                rep.encoded(sp.add, sp.multiply, sp.jacobian_add, sp.jacobian_double, sp.jacobian_multiply, sp.from_jacobian, sp.to_jacobian)
+                _small_secp(rep, p, b, N, part)
+            return f
+        obligation("C18", "small_prime_order_curve_p%d_%s" % (_p, _part), tier="thorough", timeout=3000,
+                   bound="module constants P, N, A, B, G rebound to y^2 = x^3 + %d over GF(%d) (prime order %d): %s; exact 24-bit vectors with no-wrap side conditions"
+                   % (_b, _p, _N, {"add": "add on EVERY pair of points incl. identity", "jacobian": "jacobian_add / jacobian_double on every pair and EVERY Jacobian representative",
+                                   "multiply": "multiply for every point and EVERY scalar in [-N-2, 2N+2] (recurrence, base cases, period N)"}[_part]))(_mk_sm())
